@@ -418,12 +418,17 @@ def do_op(actor, op, instances):
               resolved = r.resolve_from_url(op["ref"])
               out = {"k": "value", "v": typed(resolved)}
           elif kind == "resolving":
+              got = None
               with r.resolving(op["ref"]) as resolved:
                   inner = r.resolution_scope
                   res = typed(resolved)
+                  if op.get("inner") is not None:
+                      # a further resolution from INSIDE the entered reference (may need the transport, may fail)
+                      url2, resolved2 = r.resolve(op["inner"])
+                      got = [url2, typed(resolved2)]
                   if op.get("body_raises"):
                       raise BodyRaised()
-              out = {"k": "value", "v": [inner, res]}
+              out = {"k": "value", "v": [inner, res, got]}
           elif kind == "in_scope":
               with r.in_scope(op["scope"]):
                   inner = r.resolution_scope
